@@ -112,6 +112,8 @@ struct World {
     stale: Vec<Arc<FlagWaker>>,
     /// loopback connection on the connector host (not part of the recorded scenario)
     lo: Option<(TcpListener, TcpStream, TcpStream)>,
+    /// connects that failed at their first poll, reported by the next poll_connects
+    failed_now: Vec<Value>,
 }
 
 fn cx() -> Context<'static> {
@@ -127,6 +129,8 @@ fn err_name(e: &io::Error) -> &'static str {
         io::ErrorKind::NotConnected => "notconnected",
         io::ErrorKind::ConnectionRefused => "refused",
         io::ErrorKind::NotFound => "notfound",
+        io::ErrorKind::AddrInUse => "addrinuse",
+        io::ErrorKind::AddrNotAvailable => "addrnotavailable",
         _ => "othererr",
     }
 }
@@ -152,8 +156,10 @@ fn mport(p: u16) -> i64 {
 fn host_of(ip: IpAddr) -> u8 {
     if ip == IP1 {
         1
-    } else {
+    } else if ip == IP2 {
         2
+    } else {
+        0 // e.g. a loopback source address: the other end of the packet decides
     }
 }
 
@@ -189,6 +195,7 @@ impl World {
             parked: Vec::new(),
             stale: Vec::new(),
             lo: None,
+            failed_now: Vec::new(),
         }
     }
 
@@ -220,7 +227,13 @@ impl World {
     }
 
     fn pkt_json(&mut self, p: &Packet) -> Value {
-        let (sh, dh) = (host_of(p.src), host_of(p.dst));
+        let (mut sh, mut dh) = (host_of(p.src), host_of(p.dst));
+        if sh == 0 {
+            sh = 3 - dh;
+        }
+        if dh == 0 {
+            dh = 3 - sh;
+        }
         match &p.payload {
             Transport::Udp(d) => json!({"src": sh, "dst": dh, "sp": mport(d.src_port), "dp": mport(d.dst_port),
                 "seq": 0, "ack": 0, "fl": "U", "win": 0, "data": vec![0u8; d.payload.len()]}),
@@ -368,7 +381,11 @@ impl World {
         match f.as_mut().poll(&mut cx()) {
             Poll::Pending => self.clients.push(Client::Pending(f)),
             Poll::Ready(Ok(s)) => self.clients.push(Client::Held(s)),
-            Poll::Ready(Err(_)) => self.clients.push(Client::Gone),
+            Poll::Ready(Err(e)) => {
+                // the connect failed at once (e.g. no ephemeral port): reported as its completion
+                self.clients.push(Client::Gone);
+                self.failed_now.push(json!({"ev": "poll", "c": c, "res": err_name(&e), "lp": 0, "pp": 0}));
+            }
         }
         self.fin(json!({"ev": "connect", "c": c}))
     }
@@ -376,6 +393,10 @@ impl World {
     /// Poll every pending connect future, in attempt order; one event per completion.
     fn poll_connects(&mut self) -> Vec<Value> {
         let mut out = Vec::new();
+        for e in std::mem::take(&mut self.failed_now) {
+            let e = self.fin(e);
+            out.push(e);
+        }
         for i in 0..self.clients.len() {
             set_current(self.h1);
             let r = match &mut self.clients[i] {
@@ -514,14 +535,17 @@ impl World {
         Some(self.fin(json!({"ev": "close", "p": p, "side": side})))
     }
 
-    /// One UDP probe from host 1 to an unbound port of host 2: `send_to`, or `connect` + `try_send`.
+    /// One UDP probe from host 1 to an unbound port of host 2: `send_to`, or `connect` + `try_send`,
+    /// from a socket bound to the host's address or to 127.0.0.1.
     fn udp(&mut self, n: usize, mode: &str) -> Value {
         set_current(self.h1);
         let dst = SocketAddr::new(IP2, UDP_DST);
-        let mut f = Box::pin(UdpSocket::bind(SocketAddr::new(IP1, UDP_SRC)));
+        // modes lo_sendto / lo_send: the socket is bound to 127.0.0.1 and sends to the other host
+        let src_ip = if mode.starts_with("lo_") { IpAddr::V4(Ipv4Addr::LOCALHOST) } else { IP1 };
+        let mut f = Box::pin(UdpSocket::bind(SocketAddr::new(src_ip, UDP_SRC)));
         let res = match f.as_mut().poll(&mut cx()) {
             Poll::Ready(Ok(s)) => {
-                let r = if mode == "send" {
+                let r = if mode.ends_with("send") && !mode.ends_with("sendto") {
                     let connected = {
                         let mut c = Box::pin(s.connect(dst));
                         matches!(c.as_mut().poll(&mut cx()), Poll::Ready(Ok(())))
@@ -1877,6 +1901,85 @@ fn wrap(args: &[String]) {
     println!("{} connections across the sequence wrap, {} events", conns, events.len());
 }
 
+/// Ephemeral-port wrap: `burn` cancelled connects advance the connector host's port cursor to the
+/// top of the range (their SYNs are discarded by the wire, unrecorded), then `conns` connections are
+/// opened at the same time across the wrap, accepted and closed. PropSpec-level events only.
+fn portwrap(args: &[String]) {
+    let cfg = Cfg::from_args(args);
+    let out = arg(args, "out").expect("out=");
+    let conns = arg_u64(args, "conns", 4) as usize;
+    let burn = arg_u64(args, "burn", 16382) as usize;
+    let mut events: Vec<Value> = Vec::new();
+    let r = catch(|| {
+        let mut w = World::new(&cfg);
+        let light = |mut e: Value| {
+            let m = e.as_object_mut().unwrap();
+            m.remove("dump");
+            m.remove("ages");
+            e
+        };
+        let mut junk = Vec::new();
+        for i in 0..burn {
+            set_current(w.h1);
+            let mut f: ConnFut = Box::pin(TcpStream::connect(SocketAddr::new(IP2, LPORT)));
+            let _ = f.as_mut().poll(&mut cx());
+            drop(f);
+            if i % 512 == 0 {
+                junk.clear();
+                w.guard.egress_all(&mut junk);
+            }
+        }
+        junk.clear();
+        w.guard.egress_all(&mut junk);
+        PORT_BASE.with(|b| b.set((burn % 16384) as u16));
+        events.push(json!({"ev": "reset", "keep_kernel": true}));
+        events.push(light(w.listen()));
+        let mut eps: Vec<(i64, String)> = Vec::new();
+        for _ in 0..conns {
+            events.push(light(w.connect()));
+        }
+        let quiet_target = (cfg.retxt * (cfg.retxmax + 1) + 2) as usize;
+        let pump = |w: &mut World, events: &mut Vec<Value>, eps: &mut Vec<(i64, String)>| -> bool {
+            let e = w.egress();
+            let quiet = e["pk"].as_array().map(|a| a.is_empty()).unwrap_or(false);
+            events.push(light(e));
+            let mut evs = Vec::new();
+            poll_into(w, &mut evs, eps);
+            while !w.wire.is_empty() {
+                evs.push(w.deliver(1).unwrap());
+                poll_into(w, &mut evs, eps);
+            }
+            while let Some(e) = w.accept() {
+                eps.push((e["pp"].as_i64().unwrap(), "s".into()));
+                evs.push(e);
+            }
+            events.extend(evs.into_iter().map(light));
+            quiet
+        };
+        for _ in 0..6 {
+            pump(&mut w, &mut events, &mut eps);
+        }
+        for (p, side) in eps.clone() {
+            if let Some(e) = w.close(p, &side) {
+                events.push(light(e));
+            }
+        }
+        eps.clear();
+        let mut quiet = 0;
+        let mut guard = 0;
+        while quiet < quiet_target && guard < 200 {
+            guard += 1;
+            quiet = if pump(&mut w, &mut events, &mut eps) { quiet + 1 } else { 0 };
+        }
+        w.teardown();
+    });
+    if let Err(m) = r {
+        events.push(json!({"ev": "panic", "message": m}));
+    }
+    write_ndjson(&out, &events);
+    println!("{} connections across the ephemeral-port wrap, {} events", conns, events.len());
+}
+
 fn main() {
     let args: Vec<String> = std::env::args().skip(1).collect();
     match args.first().map(|s| s.as_str()) {
@@ -1885,6 +1988,7 @@ fn main() {
         Some("random") => random(&args),
         Some("reuse") => reuse(&args),
         Some("wrap") => wrap(&args),
+        Some("portwrap") => portwrap(&args),
         _ => {
             eprintln!("usage: ktcp replay|labels|random|reuse key=value ...");
             std::process::exit(2);
